@@ -31,7 +31,10 @@ MaxOf(S) == CHOOSE x \in S : \A y \in S : x >= y
 RECURSIVE Concat(_)
 Concat(ss) == IF ss = <<>> THEN <<>> ELSE Head(ss) \o Concat(Tail(ss))
 
-Rev(s) == [i \in 1..Len(s) |-> s[Len(s) + 1 - i]]
+\* TLC evaluates [i \in S |-> e] lazily (the body is re-evaluated at every application); "\o <<>>"
+\* turns such a function into an explicit tuple, so that every element is computed once.
+Strict(f) == f \o <<>>
+Rev(s) == Strict([i \in 1..Len(s) |-> s[Len(s) + 1 - i]])
 
 (* SegID accumulator in front of entry k (1-based); Beta(s, N+1) is the value after the last. *)
 RECURSIVE Beta(_, _)
@@ -53,7 +56,7 @@ HopAt(s, pc, k) ==
       ELSE [in |-> e.in, eg |-> e.eg, exp |-> e.exp, mac |-> e.mac]
 
 \* entries c..N in construction order
-ConsHops(s, pc) == [j \in 1..(N(s) - pc.c + 1) |-> HopAt(s, pc, pc.c + j - 1)]
+ConsHops(s, pc) == Strict([j \in 1..(N(s) - pc.c + 1) |-> HopAt(s, pc, pc.c + j - 1)])
 
 PieceHops(s, pc) == IF pc.k = "down" THEN ConsHops(s, pc) ELSE Rev(ConsHops(s, pc))
 
@@ -143,10 +146,10 @@ PieceRec(s, pc) ==
 
 PathOf(ch, ups, cores, downs) ==
     LET n == Len(ch)
-        pr == [j \in 1..n |-> PieceRec(SegOf(ch[j], ups, cores, downs), ch[j])]
+        pr == Strict([j \in 1..n |-> PieceRec(SegOf(ch[j], ups, cores, downs), ch[j])])
         intfs == Concat([j \in 1..n |-> pr[j].intfs]) IN
-    [seglen |-> [j \in 1..3 |-> IF j <= n THEN pr[j].n ELSE 0],
-     infos |-> [j \in 1..n |-> pr[j].info],
+    [seglen |-> Strict([j \in 1..3 |-> IF j <= n THEN pr[j].n ELSE 0]),
+     infos |-> Strict([j \in 1..n |-> pr[j].info]),
      hops |-> Concat([j \in 1..n |-> pr[j].hops]),
      intfs |-> intfs,
      mtu |-> MinOf(UNION {pr[j].mtus : j \in 1..n}),
